@@ -189,6 +189,9 @@ pub fn gen_leaf(rng: &mut Rng, cfg: &GenCfg) -> TreeSpec {
     _ => {
       let name = rng.pick(FILE_NAMES).to_string();
       let map = gen_map_for(rng, &text, None);
+      if cfg.allow_inner_map && rng.chance(80) {
+        return gen_aligned_combined(rng, cfg, text, name);
+      }
       let inner = if cfg.allow_inner_map && rng.chance(150) {
         let orig = gen_text(rng, 20, cfg.ascii);
         let inner_map = gen_map_for(rng, &orig, None);
@@ -219,6 +222,95 @@ pub fn gen_leaf(rng: &mut Rng, cfg: &GenCfg) -> TreeSpec {
         inner,
       }
     }
+  }
+}
+
+/// A SourceMapSource whose outer map points *into* the chunks of its inner
+/// map: the outer map's only source is the node's own name, its original
+/// positions lie on (or strictly inside) the inner map's segments of the
+/// original source, and the inner map's source carries content — the shape
+/// that makes the combined-source-map streaming look up, cut and compare
+/// inner chunks (helpers.rs), with multi-byte text on every level when the
+/// run is not ASCII-only.
+pub fn gen_aligned_combined(rng: &mut Rng, cfg: &GenCfg, text: String, name: String) -> TreeSpec {
+  let ascii = cfg.ascii;
+  let mut nonempty = |rng: &mut Rng, max: usize| {
+    let mut t = gen_text(rng, max, ascii);
+    if t.is_empty() {
+      t = if ascii { "ab;\ncd".to_string() } else { "世界abc;\né=1".to_string() };
+    }
+    t
+  };
+  let original = nonempty(rng, 18);
+  let innermost = nonempty(rng, 18);
+  let orig_lines = line_lengths(&original);
+  let inner_lines = line_lengths(&innermost);
+  let char_len = |t: &str, line: usize| t.split_inclusive('\n').nth(line).map_or(0, |l| l.chars().count() as u32);
+  // inner map: original -> innermost
+  let mut segs = vec![];
+  for li in 0..orig_lines.len() {
+    let n = 1 + rng.usize_below(3);
+    let width = char_len(&original, li).max(1);
+    let mut cols: Vec<u32> = (0..n).map(|_| rng.below(width as u64) as u32).collect();
+    if rng.chance(700) {
+      cols[0] = 0;
+    }
+    cols.sort_unstable();
+    cols.dedup();
+    for col in cols {
+      let ol = rng.usize_below(inner_lines.len());
+      segs.push(Seg {
+        line: li as u32 + 1,
+        col,
+        orig: Some((0, ol as u32 + 1, rng.below(char_len(&innermost, ol).max(1) as u64 + 1) as u32, None)),
+      });
+    }
+  }
+  let inner_map = MapSpec {
+    mappings: encode_mappings(&segs),
+    sources: vec!["in.js".to_string()],
+    sources_content: if rng.chance(850) { vec![innermost] } else { vec![] },
+    names: vec![],
+    file: None,
+    source_root: None,
+    debug_id: None,
+  };
+  // outer map: generated text -> original (positions on or inside inner segments)
+  let mut outer = vec![];
+  for (li, len) in line_lengths(&text).iter().enumerate() {
+    let n = rng.usize_below(4);
+    let mut cols: Vec<u32> = (0..n).map(|_| rng.below((*len).max(1) as u64) as u32).collect();
+    cols.sort_unstable();
+    cols.dedup();
+    for col in cols {
+      let ol = rng.usize_below(orig_lines.len());
+      // columns up to the line's *byte* length: covers char, UTF-16 and byte readings
+      let oc = rng.below(orig_lines[ol] as u64 + 1) as u32;
+      outer.push(Seg {
+        line: li as u32 + 1,
+        col,
+        orig: Some((0, ol as u32 + 1, oc, if rng.chance(300) { Some(0) } else { None })),
+      });
+    }
+  }
+  let map = MapSpec {
+    mappings: encode_mappings(&outer),
+    sources: vec![name.clone()],
+    sources_content: if rng.chance(500) { vec![original.clone()] } else { vec![] },
+    names: vec!["nm".to_string()],
+    file: None,
+    source_root: None,
+    debug_id: None,
+  };
+  TreeSpec::SourceMap {
+    text,
+    name,
+    map,
+    inner: Some(InnerMapSpec {
+      original_source: if rng.chance(800) { Some(original) } else { None },
+      inner_map: Some(inner_map),
+      remove_original_source: rng.chance(300),
+    }),
   }
 }
 
@@ -281,6 +373,16 @@ pub fn gen_calls(rng: &mut Rng, text: &str, max: usize, ascii: bool) -> Vec<Repl
   calls
 }
 
+/// 30 % of ReplaceSources with two or more calls get a pre-history: observed
+/// once (sorted) after some of the calls, then edited further.
+pub fn pre_history(rng: &mut Rng, n_calls: usize) -> Option<u32> {
+  if n_calls >= 2 && rng.chance(300) {
+    Some(1 + rng.below(n_calls as u64 - 1) as u32)
+  } else {
+    None
+  }
+}
+
 pub fn gen_tree(rng: &mut Rng, cfg: &GenCfg, ids: &mut Ids, depth: u32, budget: &mut u32) -> TreeSpec {
   if *budget > 0 {
     *budget -= 1;
@@ -309,9 +411,11 @@ pub fn gen_tree(rng: &mut Rng, cfg: &GenCfg, ids: &mut Ids, depth: u32, budget: 
       let inner = gen_tree(rng, cfg, ids, depth - 1, budget);
       let text = content(&inner).0;
       let calls = gen_calls(rng, &text, cfg.max_calls, cfg.ascii);
+      let observe_at = pre_history(rng, calls.len());
       TreeSpec::Replace {
         inner: Box::new(inner),
         calls,
+        observe_at,
       }
     }
     65..=84 if cfg.allow_cached => TreeSpec::Cached {
@@ -337,9 +441,10 @@ pub fn fresh_cache_ids(spec: &TreeSpec, ids: &mut Ids, map: &mut std::collection
       children: children.iter().map(|c| fresh_cache_ids(c, ids, map)).collect(),
       how: how.clone(),
     },
-    TreeSpec::Replace { inner, calls } => TreeSpec::Replace {
+    TreeSpec::Replace { inner, calls, observe_at } => TreeSpec::Replace {
       inner: Box::new(fresh_cache_ids(inner, ids, map)),
       calls: calls.clone(),
+      observe_at: *observe_at,
     },
     TreeSpec::Cached { inner, cache_id } => {
       let new_id = *map.entry(*cache_id).or_insert_with(|| ids.cache());
@@ -380,7 +485,7 @@ pub fn is_ascii_tree(spec: &TreeSpec) -> bool {
         })
     }
     TreeSpec::Concat { children, .. } => children.iter().all(is_ascii_tree),
-    TreeSpec::Replace { inner, calls } => {
+    TreeSpec::Replace { inner, calls, .. } => {
       is_ascii_tree(inner)
         && calls
           .iter()
